@@ -559,6 +559,10 @@ func (st *wstate) checkMulti(i int, l *scen.Lifetime, lf *model.Life, after worl
 				}
 			}
 			st.sortedOK[path] = true
+			if st.out.Stats.Sorted == nil {
+				st.out.Stats.Sorted = map[string][]byte{}
+			}
+			st.out.Stats.Sorted[path] = b
 		}
 		// adopt the real order
 		byID := map[string]model.Entry{}
